@@ -280,6 +280,10 @@ def cxx_jobs(module, src):
 def c19_jobs(tier):
     src = ['src/math.c', 'src/a.c']
     jobs = grid_jobs('bits', 'harness/bits.cpp', src, tier, 16)
+    # accessors and reversal in the two other configurations: out-of-line symbols of src/a.c (-DA_HAVE_INLINE=0, callers see only the
+    # declarations with their attributes) and UBSan/ASan (typed or misaligned accesses at odd offsets are reported)
+    jobs += grid_jobs('bits-outofline', 'harness/bits.cpp', src, 'quick', 1, defs=['-DA_HAVE_INLINE=0'], extra=['--light', 1])
+    jobs += grid_jobs('bits-asan', 'harness/bits.cpp', src, 'quick', 1, san='asan', extra=['--light', 1])
     # the same sources with the header's inline bodies selected, and one sanitizer shard on a reduced sweep is not needed: the sweeps are pure integer code
     if tier == 'thorough':
         jobs += grid_jobs('bits-inline', 'harness/bits.cpp', src, tier, 16, defs=['-DA_HAVE_INLINE=1'])
@@ -421,7 +425,7 @@ CHECKS['C12'] = {
              'thorough: the full product kp,kd in {0,1/2,2} x ki in {0,1/2,1} x 4 integrator-limit pairs x 4 output-limit pairs = 432 sets) from EVERY reachable state EVERY step (mode in {run,pos,inc}) x (set-point, feedback) in {-2,0,1}^2 (thorough {-3,-1,0,2}^2) and zero is executed; '
              'all quantities are dyadic so the arithmetic is exact and the BFS reaches a FIXPOINT (histories of any length). Oracle after every step: output within limits, state finite, integrator never moves further beyond its clamp, inside the clamp it advances by exactly ki*err, beyond the clamp it holds unless the error points inward, '
              'positional and incremental outputs equal the difference equations exactly, zero restores the initial state. A shadow pair (positional + incremental controller fed the same inputs) must coincide for as long as no limit has been active. '
-             'Single-neuron controller: depth-bounded BFS (4 steps quick, 5 thorough) from 4 weight vectors incl. all-zero x 2 output gains; fuzzy controller: depth-bounded BFS (3 / 4 steps) over 7 rule bases (two huge ramps whose rules fire with total strength around 1e-16, 3x3 shoulder triangles with and without a kp table, an unsorted 3x3 table, 5x5 trapezoid shoulders, 3 wide triangles with 3 simultaneously active sets, the 7x7 base of test/pid_fuzzy.h) x ALL SEVEN operators x parameter sets, scratch buffer of exactly A_PID_FUZZY_BFUZZ(active) bytes between canaries: '
+             'Single-neuron controller: depth-bounded BFS (4 steps quick, 5 thorough) from 4 weight vectors incl. all-zero x 2 output gains; fuzzy controller: depth-bounded BFS (3 / 4 steps) over 9 rule bases (two huge ramps whose rules fire with total strength around 1e-16, 3x3 shoulder triangles with all three tables and with each of the kp, ki, kd tables absent, an unsorted 3x3 table, 5x5 trapezoid shoulders, 3 wide triangles with 3 simultaneously active sets, the 7x7 base of test/pid_fuzzy.h) x ALL SEVEN operators x parameter sets, scratch buffer of exactly A_PID_FUZZY_BFUZZ(active) bytes between canaries: '
              'output within limits, every field and scheduled gain finite, gains within base + [min,max] of the consequents, step equations with the gains scheduled for that step. distinct_nontrivial = distinct reachable controller states.'),
     'assumptions': ['dyadic gains/limits/inputs: every floating-point operation of the plain controller is exact, so == comparisons are sound; the fuzzy step is compared within 16 ulp of the term magnitude because scheduled gains are weighted means',
                     'exactly on a clamp (sum == summax or sum == summin) either holding or integrating is accepted: code comment and header formula differ there', 'the neuron controller is checked for limits, finiteness, cache updates and zeroing, not against the header formula (the statement names the equations of the positional and incremental forms)',
@@ -600,7 +604,10 @@ CHECKS['C11'] = {
 
 
 def c20_jobs(tier):
-    return [{'name': 'abi-%s' % w, 'build_name': 'abi-%s' % w, 'script': 'abi/check.py', 'harness': [], 'args': ['--width', w, '--tier', tier], 'timeout': 900} for w in ('f64', 'f32')]
+    jobs = [{'name': 'abi-%s' % w, 'build_name': 'abi-%s' % w, 'script': 'abi/check.py', 'harness': [], 'args': ['--width', w, '--tier', tier], 'timeout': 900} for w in ('f64', 'f32')]
+    # the C side compiled in the oldest language mode the headers support (a cc-crate build picks up CFLAGS): a_bool is then not _Bool
+    jobs.append({'name': 'abi-f64-c90', 'build_name': 'abi-f64-c90', 'script': 'abi/check.py', 'harness': [], 'args': ['--width', 'f64', '--tier', tier, '--cstd', 'c90'], 'timeout': 900})
+    return jobs
 
 
 CHECKS['C20'] = {
